@@ -95,6 +95,9 @@ func TestWorker(t *testing.T) {
 		if res.Growth > out.Counters["max_heap_growth"] {
 			out.Counters["max_heap_growth"] = res.Growth
 		}
+		if len(c.Data) <= 4096 {
+			out.Remember(c)
+		}
 		out.Tick(256)
 		// a flagged memory trial moved the high-water mark, and so does slow
 		// creep from garbage: restart the worker so the mark cannot mask later trials
